@@ -18,34 +18,31 @@ Definition assignment := nat -> Fr.
 Definition wires_of (asg : assignment) (g : gate) : wires :=
   mkWires (asg (w_a g)) (asg (w_b g)) (asg (w_c g)) (asg (w_d g)).
 
-(* public input of row i in an association list (row, value) *)
-Fixpoint pi_at (pis : list (nat * Fr)) (i : nat) : Fr :=
-  match pis with
-  | [] => fzero
-  | (j, v) :: tl => if Nat.eqb i j then v else pi_at tl i
-  end.
+Definition pi_val (o : option Fr) : Fr := match o with Some v => v | None => fzero end.
 
 Section Sat.
-Variable gates : list gate.
-Variable pis : list (nat * Fr).
+Variable rows : list (gate * option Fr).
 Variable asg : assignment.
 
-Definition nrows : nat := npo2 (length gates).
+Definition nrows : nat := npo2 (length rows).
 
 (* wire values on the padded domain: real rows read the assignment, padding
    rows hold literal zeros (compiler/prover.rs round 1) *)
 Definition row_wires (i : nat) : wires :=
-  match nth_error gates i with
-  | Some g => wires_of asg g
+  match nth_error rows i with
+  | Some (g, _) => wires_of asg g
   | None => zero_wires
   end.
-Definition row_gate (i : nat) : gate := nth i gates zero_gate.
+Definition row_gate (i : nat) : gate :=
+  match nth_error rows i with Some (g, _) => g | None => zero_gate end.
+Definition row_pi (i : nat) : Fr :=
+  match nth_error rows i with Some (_, o) => pi_val o | None => fzero end.
 Definition next_row (i : nat) : nat := (i + 1) mod nrows.
 
 Definition row_ok_at (i : nat) : Prop :=
-  row_ok (row_gate i) (row_wires i) (row_wires (next_row i)) (pi_at pis i).
+  row_ok (row_gate i) (row_wires i) (row_wires (next_row i)) (row_pi i).
 Definition row_okb_at (i : nat) : bool :=
-  row_okb (row_gate i) (row_wires i) (row_wires (next_row i)) (pi_at pis i).
+  row_okb (row_gate i) (row_wires i) (row_wires (next_row i)) (row_pi i).
 
 (* every row of the padded domain *)
 Definition sat : Prop := forall i, i < nrows -> row_ok_at i.
@@ -58,7 +55,7 @@ End Sat.
 (* A block of rows seen in isolation: row i reads row i+1 of the block; the
    last row reads zeros (it must not depend on them: see [no_next]). *)
 Section Block.
-Variable blk : list (gate * Fr).   (* gate and its public input (0 if none) *)
+Variable blk : list (gate * option Fr).
 Variable asg : assignment.
 
 Definition blk_wires (i : nat) : wires :=
@@ -69,7 +66,7 @@ Definition blk_wires (i : nat) : wires :=
 
 Definition block_row_ok (i : nat) : Prop :=
   match nth_error blk i with
-  | Some (g, pi) => row_ok g (wires_of asg g) (blk_wires (S i)) pi
+  | Some (g, o) => row_ok g (wires_of asg g) (blk_wires (S i)) (pi_val o)
   | None => True
   end.
 
@@ -77,7 +74,7 @@ Definition block_sat : Prop := forall i, i < length blk -> block_row_ok i.
 
 Definition block_row_okb (i : nat) : bool :=
   match nth_error blk i with
-  | Some (g, pi) => row_okb g (wires_of asg g) (blk_wires (S i)) pi
+  | Some (g, o) => row_okb g (wires_of asg g) (blk_wires (S i)) (pi_val o)
   | None => true
   end.
 Definition block_satb : bool := forallb block_row_okb (seq 0 (length blk)).
